@@ -1,7 +1,7 @@
 open Model
 open Conv
 open Future
-(* future <as_written|fixed> <v|e|d> <nofault|fault> <drop|await|stop> | tid tid ...
+(* future <as_written|fixed> <v|e|d> <nofault|fault> <drop|await|stop|conndrop> | tid tid ...
    events are rendered exactly as tools/units/future.py projects the implementation trace *)
 let fstate_n = function
   | FInit -> 0 | FAband -> 1 | FValue -> 2 | FError -> 3 | FDoneS -> 4 | FComplete -> 5 | FPoison -> 238
@@ -11,12 +11,14 @@ let cas_order site ok = match site, ok with
   | CsNegotiate, true -> "rel" | CsNegotiate, false -> "acq"
   | CsConsume, true -> "rel" | CsConsume, false -> "acq"
   | CsDrop, true -> "rel" | CsDrop, false -> "rlx"
+  | CsDropNeg, true -> "rel" | CsDropNeg, false -> "acq"
   | CsAbandon, _ -> "rlx"
 let str_result = function RVal -> "value" | RErr -> "error" | RDone -> "done"
 let str_member = function MVal -> "values_" | MErr -> "error_"
 let b01 b = if b then "1" else "0"
 let render = function
   | EStL v -> Printf.sprintf "fut.state L.rlx %d" (fstate_n v)
+  | EStLa v -> Printf.sprintf "fut.state L.acq %d" (fstate_n v)
   | EStS v -> Printf.sprintf "fut.state S.rlx %d" (fstate_n v)
   | EStC (site, o, n, ok) ->
     Printf.sprintf "fut.state C.%s %d->%d %s" (cas_order site ok) (fstate_n o) (fstate_n n) (if ok then "ok" else "fail")
@@ -46,7 +48,7 @@ let () =
       let p = { p_fixed = (variant = "fixed");
                 p_out = (match out with "v" -> OVal | "e" -> OErr | _ -> ODone);
                 p_fault = (fault = "fault");
-                p_prog = (match prog with "drop" -> PDrop | "await" -> PAwait | _ -> PStop) } in
+                p_prog = (match prog with "drop" -> PDrop | "await" -> PAwait | "conndrop" -> PConnDrop | _ -> PStop) } in
       let step t s = Future.step (nat_of_int t) s in
       let (st, tr) = Lockstep.run step render (Future.init p) (ints_of_words tids) in
       let g = st.g in
